@@ -88,7 +88,12 @@ def main(argv):
     try:
         items = mod.items(tier, seed)
         from . import selfcheck
-        items = items + selfcheck.items(tier, seed, sre=getattr(mod, "USES_REGEX", False))
+        seen_ids, uniq = set(), []
+        for it in items:
+            if it.id not in seen_ids:
+                seen_ids.add(it.id)
+                uniq.append(it)
+        items = uniq + selfcheck.items(tier, seed, sre=getattr(mod, "USES_REGEX", False))
     except BaseException as e:
         import traceback
         traceback.print_exc()
